@@ -44,6 +44,8 @@ Failed(r) ==
 \cup (IF ND = D /\ ND2 = D THEN {} ELSE {"noise_relabelled_by_same_D"})
 \cup (IF r.noise_default = r.noise_default_on_deformed THEN {}
       ELSE {"noise_model_does_not_depend_on_earlier_deformations_of_the_object"})
+\cup (IF r.noise_default = r.noise_default_after_params_edit THEN {}
+      ELSE {"noise_model_does_not_depend_on_options_given_to_another_model"})
 \cup (IF \A j \in DOMAIN r.ep_ok : r.ep_ok[j] THEN {} ELSE {"deformed_noise_gives_e_the_probability_of_D_e"})
 \cup (IF r.deformed_flag /\ r.deformed_name = r.name THEN {} ELSE {"deformation_recorded_on_object"})
 
